@@ -28,28 +28,28 @@ def source_hash():
 
 
 def dump_mir(variant=''):
-    """-> (dir with lber.mir / ldap3.mir, seconds spent, hash).  variant 'tls' = ldap3 with default features"""
+    """-> (dir with lber.mir / ldap3.mir, seconds spent, hash).  variant 'tls' = ldap3 with default features, 'hooks' = sync + the verif feature (constructors of handles)"""
     hsh = source_hash()
     out = os.path.join(WORK, 'mir', hsh)
     os.makedirs(os.path.join(WORK, 'mir'), exist_ok=True)
     t0 = time.time()
     with open(os.path.join(WORK, 'mir', '.lock'), 'w') as lk:
         fcntl.flock(lk, fcntl.LOCK_EX)
-        want = 'ldap3_tls.mir' if variant == 'tls' else 'ldap3.mir'
+        want = {'tls': 'ldap3_tls.mir', 'hooks': 'ldap3_hooks.mir'}.get(variant, 'ldap3.mir')
         if not (os.path.exists(os.path.join(out, want)) and os.path.exists(os.path.join(out, 'lber.mir'))):
             os.makedirs(out, exist_ok=True)
             env = dict(os.environ, CARGO_NET_OFFLINE='true')
             env.pop('RUSTFLAGS', None)
             tgt = os.path.join(WORK, 'mir', 'target')
             jobs = [('lber', [], 'lber')] if not os.path.exists(os.path.join(out, 'lber.mir')) else []
-            jobs.append(('ldap3', [], 'ldap3_tls') if variant == 'tls' else ('ldap3', ['--no-default-features', '--features', 'sync'], 'ldap3'))
+            jobs.append({'tls': ('ldap3', [], 'ldap3_tls'), 'hooks': ('ldap3', ['--no-default-features', '--features', 'sync,verif'], 'ldap3_hooks')}.get(variant, ('ldap3', ['--no-default-features', '--features', 'sync'], 'ldap3')))
             for crate, extra, outname in jobs:
                 # a plain `cargo rustc` re-run prints nothing when the crate is fresh: force a rebuild
                 src = os.path.join(REPO, 'lber/src/lib.rs' if crate == 'lber' else 'src/lib.rs')
                 st = os.stat(src)
                 os.utime(src, None)
                 try:
-                    p = subprocess.run(['cargo', '+nightly', 'rustc', '--offline', '-p', crate, '--lib', '--target-dir', tgt + ('-tls' if outname == 'ldap3_tls' else '')] + extra + ['--'] + RUSTFLAGS,
+                    p = subprocess.run(['cargo', '+nightly', 'rustc', '--offline', '-p', crate, '--lib', '--target-dir', tgt + {'ldap3_tls': '-tls', 'ldap3_hooks': '-hooks'}.get(outname, '')] + extra + ['--'] + RUSTFLAGS,
                                        cwd=REPO, env=env, stdout=subprocess.PIPE, stderr=subprocess.PIPE, text=True)
                 finally:
                     os.utime(src, (st.st_atime, st.st_mtime))
@@ -67,14 +67,14 @@ def dump_mir(variant=''):
 
 def load_program(variant=''):
     from . import mir as _mir
-    _mir.ENABLED_FEATURES = {'sync', 'tls', 'tls-native'} if variant == 'tls' else {'sync'}
+    _mir.ENABLED_FEATURES = {'tls': {'sync', 'tls', 'tls-native'}, 'hooks': {'sync', 'verif'}}.get(variant, {'sync'})
     d, secs, hsh = dump_mir(variant)
     src = SrcInfo([os.path.join(REPO, 'src'), os.path.join(REPO, 'lber/src')])
     prog = Program(REPO, src)
     # the dump records paths relative to the package root: lber/src/... and src/...
     src.files = {os.path.relpath(p, REPO): t for p, t in src.files.items()} | src.files
     prog.load(os.path.join(d, 'lber.mir'), 'lber')
-    prog.load(os.path.join(d, 'ldap3_tls.mir' if variant == 'tls' else 'ldap3.mir'), 'ldap3')
+    prog.load(os.path.join(d, {'tls': 'ldap3_tls.mir', 'hooks': 'ldap3_hooks.mir'}.get(variant, 'ldap3.mir')), 'ldap3')
     prog.dump_dir = d; prog.dump_secs = secs; prog.src_hash = hsh
     return prog
 
